@@ -137,6 +137,23 @@ func c16Loop(r *Run, cfg *Stream) {
 		evt++
 		ackAt = evt
 	})
+	// in half of the runs an administrator changes the schema of both tables while the round is
+	// under way (new families, which hold no cells): admin requests take a table's lock and the
+	// server's, the loop takes the server's and then each table's - nobody may wait for ever
+	if d.n(2) == 1 {
+		r.Probe("c16.round_with_concurrent_schema_changes")
+		s.Go("admin", func() {
+			for k := 0; k < 6 && !roundOver && !r.Failed(); k++ {
+				tblName := []string{big, small}[k%2]
+				mod := []*btapb.ModifyColumnFamiliesRequest_Modification{{Id: fmt.Sprintf("g%d", k), Mod: &btapb.ModifyColumnFamiliesRequest_Modification_Create{Create: &btapb.ColumnFamily{}}}}
+				if _, err := w.ModifyFamilies(tblName, mod); err != nil {
+					r.Fail("admin-failed", "", "ModifyColumnFamilies(create g%d) on %s during a GC round: %v", k, tblName, err)
+					return
+				}
+				s.Yield("admin.pause")
+			}
+		})
+	}
 	v := s.Run()
 	r.FinishSched(s, v)
 	clk.WallTick = nil
